@@ -16,10 +16,14 @@ package el
 //@ assigns nothing
 //@ ensures [match-iff-placeholder] result == (RFirst(self.Pattern, s) != "")
 
+// ElLastInput: the text the most recent resolution started from (C18: expressions are evaluated on the text the
+// placeholder stage produced, not on the raw tag).
+//@ ghost var ElLastInput string
 //@ method (Helper).ReplaceAllContent
 //@ property C16 C18
 //@ requires [usable] self.OK && f != nil
-//@ assigns allmaps(map[string]any)
+//@ assigns allmaps(map[string]any), ElLastInput
+//@ ensures [input-recorded] ElLastInput == s
 //@ ensures [no-placeholder-left] implies(result1 == nil, RFirst(self.Pattern, result0) == "")
 //@ ensures [untouched-without-placeholder] implies(RFirst(self.Pattern, s) == "", result0 == s && result1 == nil)
 //@ ensures [error-means-empty] implies(result1 != nil, result0 == "")
@@ -46,6 +50,7 @@ package el
 //@ func (*elHelper).ReplaceAllContent
 //@ implements Helper
 //@ terminates
+//@ ghost at return: ElLastInput = s
 //@ loop 1 decreases maxReplaceRounds - round
 //@ loop 1 invariant [rounds-bounded] 0 <= round && round <= maxReplaceRounds
 //@ loop 1 invariant [untouched] implies(RFirst(e.Regexp, s) == "", result == s)
